@@ -10,4 +10,4 @@ Extraction "model_c17.ml" keepN keepZ keepNat cur_cfg j2m m2j md_eqb md_wf md_so
   encode_arbitrary_bytes decode_arbitrary_bytes j2p p2j pd_eqb pd_wf pd_has_empty_values
   sf_de sf_ser sval_ok sf_canonical
   judge_j2m judge_m2j judge_j2p judge_p2j judge_chunk judge_unchunk judge_sfd judge_sfs judge_ty
-  enc dec wfv serde_table lookup_serde j_json j_of_json j_norm j_wf j_canonical tj_premise judge_tj val_eqb.
+  enc dec wfv j_table lookup_serde j_json j_of_json j_norm j_wf j_canonical tj_premise judge_tj val_eqb.
